@@ -617,6 +617,27 @@ def locate(fn, loc):
         if len(hits) <= loc[2]:
             raise Fail("%s: no call #%d to %s" % (fn.name, loc[2], loc[1]), fn)
         return hits[loc[2]]
+    if kind == "ifexp_test":
+        # ("ifexp_test", target, nth): the test of the conditional expression `a if <test> else b` assigned to `target`
+        v = assign_value(fn, loc[1], loc[2])
+        if not isinstance(v, ast.IfExp):
+            raise Fail("%s: %s is no longer assigned a conditional expression (it is `%s`)" % (fn.name, loc[1], ast.unparse(v)), v)
+        return v.test
+    if kind == "if_assigning":
+        # ("if_assigning", target, nth): the test of the nth (source order) `if` statement whose body assigns `target` --
+        # "the guard under which X is set", whatever the guard mentions
+        def assigns(n):
+            for st in n.body:
+                for x in ast.walk(st):
+                    if isinstance(x, ast.Assign) and any(ast.unparse(t) == loc[1] for t in x.targets):
+                        return True
+                    if isinstance(x, ast.AnnAssign) and ast.unparse(x.target) == loc[1] and x.value is not None:
+                        return True
+            return False
+        hits = sorted((n for n in ast.walk(fn) if isinstance(n, ast.If) and assigns(n)), key=lambda n: (n.lineno, n.col_offset))
+        if len(hits) <= loc[2]:
+            raise Fail("%s: no `if` statement #%d assigning %s" % (fn.name, loc[2], loc[1]), fn)
+        return hits[loc[2]].test
     if kind == "signature":
         # ("signature",): the parameter list with annotations and defaults, for shape pins of default arguments
         return fn.args
